@@ -398,7 +398,7 @@ func (e *Engine) builtinModel(vc *VC, ins *ssa.Call, f *ssa.Function, args []*Va
 			return true
 		}
 		v := args[2]
-		vc.checkFrame(b.C[0], ins.Pos(), nil)
+		vc.checkFrameAt(b.C[0], b.C[1], ins.Pos())
 		bl := layoutOf(types.Typ[types.Uint8])
 		var ibytes []string
 		if vc.intMode {
